@@ -75,6 +75,11 @@ def gen(rng, tier):
         modular = {'defs': defs, 'top': top, 'declare': rng.random() < 0.5, 'via': rng.choice(['add_sub_spec', 'text'])}
     m = rng.randint(0, 10 if tier == 'thorough' else 8)
     npost = rng.randint(1, 8)
+    only_positions = None
+    if rng.random() < 0.012 and not any(x[0] == 'exp' for x in sg.walk(ast)):
+        # a long pre-history (a monitor that ran for a while before it is reset): reset positions are drawn, not enumerated
+        m = rng.choice([40, 70, 130])
+        only_positions = sorted(set([m, m // 2] + [rng.randrange(m + 1) for _ in range(3)]))
     if dense:
         cls = 'ct_on' if rng.random() < 0.7 else 'ct'
         pre_sig = dict((v, world.gen_dense_signal(rng, m, start_q=0, max_gap_q=4)[0]) for v in vars_) if m else dict((v, []) for v in vars_)
@@ -106,7 +111,8 @@ def gen(rng, tier):
                              and ast[1][2][1][0] == 'var' and rng.random() < 0.7) else rng.choice(sg.vars_of(ast))
     poison = {'at': (rng.choice([0, 0, rng.randrange(m)]) if m else 0), 'var': pv} if rng.random() < 0.45 else None
     return {'reconf': reconf, 'early': rng.random() < 0.4, 'poison': poison, 'poison_mid': rng.random() < 0.5, 'dense': dense, 'cls': cls, 'vars': vars_, 'ast': ast, 'modular': modular, 'pastify': pastify, 'pre': pre,
-            'post': post, 'double_at': rng.randint(0, m), 'text': None, 'spell_seed': rng.randrange(1 << 30), 'mid_len': mid_len}
+            'post': post, 'double_at': rng.randint(0, m), 'text': None, 'spell_seed': rng.randrange(1 << 30), 'mid_len': mid_len,
+            'only_positions': only_positions}
 
 
 def spec_desc(sc):
@@ -222,7 +228,10 @@ def run(sc):
         return r
     r.obs.append(want)
     m = len(pre)
-    positions = [(p, 1, False) for p in range(m + 1)] + [(min(sc.get('double_at', 0), m), 2, False)]
+    plist = [p for p in (sc.get('only_positions') or range(m + 1)) if p <= m]
+    if sc.get('only_positions'):
+        r.probes['long_pre_history'] += 1
+    positions = [(p, 1, False) for p in plist] + [(min(sc.get('double_at', 0), m), 2, False)]
     mid = post[:sc.get('mid_len', 0)] if sc.get('mid_len') else []
     if mid:
         # episodes: pre[:p], reset, mid (= a prefix of the post inputs), reset, post
